@@ -615,7 +615,17 @@ impl<const B: Word> Repr<B> {
         assert!(B == 2);
         debug_assert!(self.is_finite());
 
-        if self.significand.is_zero() || self.exponent.saturating_add(self.digits() as isize) > -126 {
+        let top_bit = self.exponent.saturating_add(self.digits() as isize);
+        if !self.significand.is_zero() && top_bit > 128 + 1 {
+            // beyond the largest finite f32 whatever the rounding does (it carries by at most one bit):
+            // answer as into_f32_internal does, but without rounding to 24 bits first - next to
+            // isize::MAX the exponent of the rounded number is not representable
+            return match self.sign() {
+                Sign::Positive => Inexact(f32::INFINITY, Rounding::AddOne),
+                Sign::Negative => Inexact(f32::NEG_INFINITY, Rounding::SubOne),
+            };
+        }
+        if self.significand.is_zero() || top_bit > -126 {
             Context::<R>::new(24)
                 .repr_round_ref(self)
                 .and_then(|v| v.into_f32_internal())
@@ -634,7 +644,15 @@ impl<const B: Word> Repr<B> {
         assert!(B == 2);
         debug_assert!(self.is_finite());
 
-        if self.significand.is_zero() || self.exponent.saturating_add(self.digits() as isize) > -1022 {
+        let top_bit = self.exponent.saturating_add(self.digits() as isize);
+        if !self.significand.is_zero() && top_bit > 1024 + 1 {
+            // beyond the largest finite f64 whatever the rounding does, see binary_to_f32
+            return match self.sign() {
+                Sign::Positive => Inexact(f64::INFINITY, Rounding::AddOne),
+                Sign::Negative => Inexact(f64::NEG_INFINITY, Rounding::SubOne),
+            };
+        }
+        if self.significand.is_zero() || top_bit > -1022 {
             Context::<R>::new(53)
                 .repr_round_ref(self)
                 .and_then(|v| v.into_f64_internal())
